@@ -720,6 +720,9 @@ impl Curve for G1Projective {
     /// function will panic if `p.len() != q.len()`.
     fn batch_normalize(p: &[Self], q: &mut [Self::AffineRepr]) {
         assert_eq!(p.len(), q.len());
+        if p.is_empty() {
+            return;
+        }
         let points = unsafe { std::slice::from_raw_parts(p.as_ptr() as *const blst_p1, p.len()) };
 
         p1_affines::from(points)
